@@ -80,11 +80,15 @@ def split_certs(der):
     return out
 
 
-def tlcp_client(sock, deviation, client_chain=b"", client_d=0, other_d=12345):
-    """returns dict(completed=bool, server_finished_ok=bool, alert=...)"""
-    p = Peer(sock, b"\x01\x01")
+def tlcp_client(sock, deviation, client_chain=b"", client_d=0, other_d=12345, proto=257):
+    """TLCP (ECC_SM4_CBC_SM3: the pre-master secret travels under the server's encryption certificate) or TLS 1.2 (ECDHE_SM4_CBC_SM3) client.
+    returns dict(completed=bool, server_finished_ok=bool, alert=...)"""
+    tlcp = proto == 257
+    ver = b"\x01\x01" if tlcp else b"\x03\x03"
+    p = Peer(sock, ver)
     crandom = bytes((i * 7 + 3) & 255 for i in range(32))
-    p.send_hs(1, b"\x01\x01" + crandom + b"\x00" + u16(2) + b"\xe0\x13" + b"\x01\x00")
+    p.send_hs(1, ver + crandom + b"\x00" + u16(2) + (b"\xe0\x13" if tlcp else b"\xe0\x11") + b"\x01\x00")
+    ske = None
     srandom, certs, creq = None, [], False
     while True:
         r = p.recv_record()
@@ -103,12 +107,22 @@ def tlcp_client(sock, deviation, client_chain=b"", client_d=0, other_d=12345):
             lst = b[3:]; off = 0
             while off < len(lst):
                 n = int.from_bytes(lst[off:off + 3], "big"); certs.append(lst[off + 3:off + 3 + n]); off += 3 + n
+        elif t == 12:
+            ske = b
         elif t == 13:
             creq = True
         elif t == 14:
             break
-    encP = spki_point(certs[1])
-    pms = b"\x01\x01" + bytes((i * 5 + 1) & 255 for i in range(46))
+    if tlcp:
+        encP = spki_point(certs[1])
+        pms = b"\x01\x01" + bytes((i * 5 + 1) & 255 for i in range(46))
+    else:
+        # ServerKeyExchange: curve_type(1) named_curve(2) point<1> sig_alg(2) signature<2>
+        pl = ske[3]; sx = int.from_bytes(ske[5:37], "big"); sy = int.from_bytes(ske[37:69], "big")
+        assert pl == 65 and ske[4] == 4
+        ce = 0x4242424242424242424242424242424242424242424242424242424242424242 % sm2ref.n
+        cP = sm2ref.mul(ce, sm2ref.G)
+        pms = sm2ref.i2b(sm2ref.mul(ce, (sx, sy))[0])
     master = prf(pms, b"master secret", crandom + srandom, 48)
     kb = prf(master, b"key expansion", srandom + crandom, 96)
     p.keys = {"cmac": kb[0:32], "smac": kb[32:64], "ckey": kb[64:80], "skey": kb[80:96]}
@@ -118,14 +132,18 @@ def tlcp_client(sock, deviation, client_chain=b"", client_d=0, other_d=12345):
         lst = b"" if deviation.startswith("empty_cert") else b"".join(u24(len(c)) + c for c in chain)
         p.send_hs(11, u24(len(lst)) + lst)
     pre_cke = p.transcript
-    C1, C2, C3 = sm2ref.encrypt(encP, pms, 0x1234567890abcdef1234567890abcdef)
-    ct = derw.seq(derw.dint(C1[0]), derw.dint(C1[1]), derw.doctets(C3), derw.doctets(C2))
-    p.send_hs(16, u16(len(ct)) + ct)
+    if tlcp:
+        C1, C2, C3 = sm2ref.encrypt(encP, pms, 0x1234567890abcdef1234567890abcdef)
+        ct = derw.seq(derw.dint(C1[0]), derw.dint(C1[1]), derw.doctets(C3), derw.doctets(C2))
+        p.send_hs(16, u16(len(ct)) + ct)
+    else:
+        p.send_hs(16, bytes([65]) + b"\x04" + sm2ref.i2b(cP[0]) + sm2ref.i2b(cP[1]))
     if creq and deviation in ("honest", "cv_wrong_key", "cv_stale_transcript", "empty_cert_with_cv"):
         d = client_d if deviation in ("honest", "cv_stale_transcript") else other_d
         P = sm2ref.mul(d, sm2ref.G)
-        h = sm3(pre_cke if deviation == "cv_stale_transcript" else p.transcript)
-        r_, s_ = sm2ref.sign(d, P, h, 0x3333333333333333333333333333333333333333)
+        tr = pre_cke if deviation == "cv_stale_transcript" else p.transcript
+        # TLCP signs the SM3 hash of the handshake messages, TLS 1.2 the messages themselves (both through SM2 with Z)
+        r_, s_ = sm2ref.sign(d, P, sm3(tr) if tlcp else tr, 0x3333333333333333333333333333333333333333)
         sig = derw.seq(derw.dint(r_), derw.dint(s_))
         p.send_hs(15, u16(len(sig)) + sig)
     p.send_record(20, b"\x01")
@@ -164,7 +182,7 @@ def run(creddir, exe, proto, scred, strust, deviation, ccred="cli_d2", timeout=6
     chain = open(os.path.join(creddir, ccred, "chain.der"), "rb").read()
     d = int(open(os.path.join(creddir, ccred, "sign.key")).read().strip(), 16)
     try:
-        view = tlcp_client(a, deviation, chain, d)
+        view = tlcp_client(a, deviation, chain, d, proto=proto)
     except (socket.timeout, ConnectionError, OSError) as ex:
         view = {"completed": False, "why": "socket: %r" % ex}
     try:
@@ -187,5 +205,6 @@ def run(creddir, exe, proto, scred, strust, deviation, ccred="cli_d2", timeout=6
 if __name__ == "__main__":
     creddir, exe = sys.argv[1], sys.argv[2]
     for dev in sys.argv[3:]:
-        v, evs, san = run(creddir, exe, 257, "tlcp_d2", "trust_root", dev)
+        proto = int(os.environ.get("PROTO", "257"))
+        v, evs, san = run(creddir, exe, proto, "tlcp_d2" if proto == 257 else "srv_d2", "trust_root", dev)
         print(dev, v, [(e["e"], e.get("rc"), e.get("peer_certs_len")) for e in evs], san)
